@@ -159,7 +159,10 @@ def step (s : State) (t : Nat) : Option (State × Label) :=
     | .add v => some ({ s with dq := s.dq ++ [v], added := s.added ++ [v] }.setPc t (.sRel .ok), .append v)
     | .push v => some ({ s with dq := v :: s.dq, pushed := v :: s.pushed }.setPc t (.sRel .ok), .appendleft v)
     | .extend [] => some ({ s with mutex := none }.setPc t (.idle .ok), .rel)
-    | .extend (v :: vs) => some ({ s with dq := s.dq ++ [v], added := s.added ++ [v] }.setPc t (.sAct (.extend vs) false), .append v)
+    | .extend (v :: vs) =>
+      if v = 0 then     -- the value 0 stands for PLEASE_STOP inside the batch: `self.closed.go(); continue`
+        some ({ s with closed := true }.setPc t (.sAct (.extend vs) false), .close)
+      else some ({ s with dq := s.dq ++ [v], added := s.added ++ [v] }.setPc t (.sAct (.extend vs) false), .append v)
   | .sRel r => some ({ s with mutex := none }.setPc t (.idle r), .rel)
   -- pop
   | .pAcq tl => acquire s t (.pLen tl)
